@@ -207,13 +207,13 @@ package bed
 //@   ensures @C04 ok && b.N > 9 ==> w.out[E8] == 9 && forall x int :: S9 <= x && x < E9 ==> w.out[x] == itoa(b.BlockCount)[x - S9]
 //@   ensures @C04 ok && b.N > 10 ==> w.out[E9] == 9
 //@   ensures @C04 ok && b.N > 10 ==> forall m int :: 1 <= m && m < len(b.BlockSizes) ==> w.out[S10 + lw(b.BlockSizes, m)] == ','
-//@   ensures @C04 ok && b.N > 10 ==> forall m int, x int :: {lw(b.BlockSizes, m), w.out[x]} 0 <= m && m < len(b.BlockSizes) && S10 + lws(b.BlockSizes, m) <= x && x < S10 + lwe(b.BlockSizes, m) ==>
+//@   ensures @C04 ok && b.N > 10 ==> forall m int, x int :: {lws(b.BlockSizes, m), w.out[x]} 0 <= m && m < len(b.BlockSizes) && S10 + lws(b.BlockSizes, m) <= x && x < S10 + lwe(b.BlockSizes, m) ==>
 //@               w.out[x] == itoa(b.BlockSizes[m])[x - (S10 + lws(b.BlockSizes, m))]
 //@   ensures @C04 ok && b.N > 10 ==> forall x int :: S10 <= x && x < E10 ==> listch(w.out[x])
 //@   ensures @C04 ok && b.N > 11 ==> w.out[E10] == 9
 //@   ensures @C04 ok && b.N > 11 ==> forall x int :: S11 <= x && x < E11 ==> listch(w.out[x])
 //@   ensures @C04 ok && b.N > 11 ==> forall m int :: 1 <= m && m < len(b.BlockStarts) ==> w.out[S11 + lw(b.BlockStarts, m)] == ','
-//@   ensures @C04 ok && b.N > 11 ==> forall m int, x int :: {lw(b.BlockStarts, m), w.out[x]} 0 <= m && m < len(b.BlockStarts) && S11 + lws(b.BlockStarts, m) <= x && x < S11 + lwe(b.BlockStarts, m) ==>
+//@   ensures @C04 ok && b.N > 11 ==> forall m int, x int :: {lws(b.BlockStarts, m), w.out[x]} 0 <= m && m < len(b.BlockStarts) && S11 + lws(b.BlockStarts, m) <= x && x < S11 + lwe(b.BlockStarts, m) ==>
 //@               w.out[x] == itoa(b.BlockStarts[m])[x - (S11 + lws(b.BlockStarts, m))]
 //@   loop 1
 //@     snapshot P1 := w.out
@@ -223,7 +223,7 @@ package bed
 //@     invariant forall x int :: 0 <= x && x < len(P1) ==> w.out[x] == P1[x]
 //@     invariant forall x int :: len(P1) <= x && x < len(w.out) ==> listch(w.out[x])
 //@     invariant forall m int :: 1 <= m && m < i ==> w.out[len(P1) + lw(b.BlockSizes, m)] == ','
-//@     invariant forall m int, x int :: {lw(b.BlockSizes, m), w.out[x]} 0 <= m && m < i && len(P1) + lws(b.BlockSizes, m) <= x && x < len(P1) + lwe(b.BlockSizes, m) ==>
+//@     invariant forall m int, x int :: {lws(b.BlockSizes, m), w.out[x]} 0 <= m && m < i && len(P1) + lws(b.BlockSizes, m) <= x && x < len(P1) + lwe(b.BlockSizes, m) ==>
 //@               w.out[x] == itoa(b.BlockSizes[m])[x - (len(P1) + lws(b.BlockSizes, m))]
 //@   loop 2
 //@     snapshot P2 := w.out
@@ -233,7 +233,7 @@ package bed
 //@     invariant forall x int :: 0 <= x && x < len(P2) ==> w.out[x] == P2[x]
 //@     invariant forall x int :: len(P2) <= x && x < len(w.out) ==> listch(w.out[x])
 //@     invariant forall m int :: 1 <= m && m < i ==> w.out[len(P2) + lw(b.BlockStarts, m)] == ','
-//@     invariant forall m int, x int :: {lw(b.BlockStarts, m), w.out[x]} 0 <= m && m < i && len(P2) + lws(b.BlockStarts, m) <= x && x < len(P2) + lwe(b.BlockStarts, m) ==>
+//@     invariant forall m int, x int :: {lws(b.BlockStarts, m), w.out[x]} 0 <= m && m < i && len(P2) + lws(b.BlockStarts, m) <= x && x < len(P2) + lwe(b.BlockStarts, m) ==>
 //@               w.out[x] == itoa(b.BlockStarts[m])[x - (len(P2) + lws(b.BlockStarts, m))]
 
 //@ func BED.MarshalText
